@@ -26,7 +26,6 @@ import (
 	"github.com/anyproto/any-sync/commonspace/object/tree/objecttree"
 	"github.com/anyproto/any-sync/commonspace/object/tree/treechangeproto"
 	"github.com/anyproto/any-sync/consensus/consensusproto"
-	"github.com/anyproto/any-sync/util/cidutil"
 	"github.com/anyproto/any-sync/util/crypto"
 
 	"verifharness/vfutil"
@@ -213,13 +212,7 @@ var (
 	unknownChangeId = mustCid([]byte("a change nobody holds"))
 )
 
-func mustCid(b []byte) string {
-	id, err := cidutil.NewCidFromBytes(b)
-	if err != nil {
-		panic(err)
-	}
-	return id
-}
+func mustCid(b []byte) string { return canonicalCid(b).String() }
 
 func permOfStatus(st string) string {
 	switch st {
